@@ -432,11 +432,23 @@ _known_cache = None
 
 
 def load_known(pid):
+    """Open known findings of a property: known_findings.json (aggregate, committed) plus the
+    per-property source files known_findings.d/<pid>.json it is generated from."""
     global _known_cache
     if _known_cache is None:
+        items = {}
         p = os.path.join(VERIF, "known_findings.json")
-        _known_cache = json.load(open(p)) if os.path.exists(p) else {"findings": []}
-    return [f for f in _known_cache.get("findings", []) if f.get("property") == pid and f.get("status") == "open"]
+        if os.path.exists(p):
+            for f in json.load(open(p)).get("findings", []):
+                items[f.get("id")] = f
+        d = os.path.join(VERIF, "known_findings.d")
+        if os.path.isdir(d):
+            for fn in sorted(os.listdir(d)):
+                if fn.endswith(".json"):
+                    for f in json.load(open(os.path.join(d, fn))).get("findings", []):
+                        items[f.get("id")] = f
+        _known_cache = list(items.values())
+    return [f for f in _known_cache if f.get("property") == pid and f.get("status") == "open"]
 
 
 def match_known(kf, body):
